@@ -82,19 +82,70 @@ def _env_run_eligible(it):
 
 
 def _ghost_prop_covered(it, t, capacity, n):
-    it.ghost_env["N_USED"] = n
-    it.live_env["N_USED"] = n
+    for name, v in (("N_USED", n), ("T_USED", t), ("CAP_USED", capacity)):
+        it.ghost_env[name] = v
+        it.live_env[name] = v
     return it.ghost_env["COVERED"]
 
 
 CONTRACTS["model:Model.update_pars#eligible_used_by_the_run"] = dict(
     schema="model_schema", fragment={"iter": "self._program_cache['comps'].items()"}, make_env=_env_run_eligible,
-    params={"ti": "int"},
-    stubs={"self._program_cache": "CACHE", "self._program_cache['capacities'][k][ti]": "COVERED", "self.t[ti]": "COVERED"},
+    params={"ti": "int"}, ghost_params={"YEAR": "real", "CAPACITY": "real"},
+    stubs={"self._program_cache": "CACHE", "self._program_cache['capacities'][k][ti]": "CAPACITY", "self.t[ti]": "YEAR"},
     call_stubs={"self.progset.programs[k].get_prop_covered": _ghost_prop_covered},
     requires=["0 <= ti", "ti < len(c0.vals)", "ti < len(c1.vals)"],
-    ensures=[("C13.number_eligible_used_by_the_run_is_the_current_size_of_the_targeted_compartments", "N_USED == c0.vals[ti] + c1.vals[ti]")],
+    ensures=[("C13.number_eligible_used_by_the_run_is_the_current_size_of_the_targeted_compartments", "N_USED == c0.vals[ti] + c1.vals[ti]"),
+             ("C13.coverage_is_taken_at_the_year_of_the_step", "T_USED == YEAR"),
+             ("C13.coverage_uses_the_capacity_of_the_step", "CAP_USED == CAPACITY")],
     defined_props=["C13"])
+
+
+def _replay_run_coverage(model, contract):
+    """replay END TO END on the udt demo project with dt = 0.25: the first program gets a saturation that changes during the
+    programs period and ample spending; at every active step each targeted parameter must equal the outcome the program set
+    implies at the coverage REPORTED from the result for that step (converted for number / per-year parameters, clipped)"""
+    import logging
+    import warnings
+
+    import numpy as np
+    import atomica as at
+    from atomica.system import FrameworkSettings as FS
+
+    warnings.filterwarnings("ignore")
+    at.logger.setLevel(logging.ERROR)
+    P = at.demo("udt", do_run=False)
+    P.settings.update_time_vector(dt=0.25)
+    ps = P.progsets[0]
+    name = list(ps.programs.keys())[0]
+    prog = ps.programs[name]
+    prog.saturation = at.TimeSeries([2016, 2020], [0.95, 0.3])
+    spend = float(prog.spend_data.interpolate(np.array([2018.0]))[0]) * 50
+    res = P.run_sim(P.parsets[0], ps, at.ProgramInstructions(start_year=2018, alloc={name: spend}))
+    cov = res.get_coverage("fraction")
+    bad = []
+    for ti in range(len(res.t)):
+        if res.t[ti] < 2018:
+            continue
+        out = ps.get_outcomes({k: v[[ti]] for k, v in cov.items()})
+        for (par_name, pop_name), v in out.items():
+            par = res.model.get_pop(pop_name).get_par(par_name)
+            want = float(np.ravel(v)[0])
+            if par.units == FS.QUANTITY_TYPE_NUMBER:
+                want = want * par.source_popsize(ti) / res.dt
+            elif par.units in (FS.QUANTITY_TYPE_RATE, FS.QUANTITY_TYPE_PROBABILITY):
+                want = want / res.dt
+            if par.limits is not None:
+                want = float(np.clip(want, *par.limits))
+            if abs(par.vals[ti] - want) > 1e-9 * max(1.0, abs(want)):
+                bad.append(dict(parameter=par_name, population=pop_name, year=float(res.t[ti]), simulated_value=float(par.vals[ti]), value_implied_by_reported_coverage=want,
+                                reported_coverage={k: float(v[ti]) for k, v in cov.items()}))
+    pre = dict(project="udt", dt=0.25, program=name, saturation={"2016": 0.95, "2020": 0.3}, spending=spend, start_year=2018)
+    return dict(verdict="violates" if bad else "holds",
+                detail=("%d (parameter, population, step) triples differ from the value implied by the reported coverage; first: %r" % (len(bad), bad[0])) if bad
+                else "every targeted parameter equals the outcome at the reported coverage of its step", prestate=pre)
+
+
+CONTRACTS["model:Model.update_pars#eligible_used_by_the_run"]["replay_hook"] = _replay_run_coverage
 
 
 def _env_report_eligible(first):
@@ -126,3 +177,42 @@ for _first in (True, False):
                   "len(num_eligible['prog']) == n and all(num_eligible['prog'][i] == %s for i in range(n))" % ("SIZES[i]" if _first else "SO_FAR[i] + SIZES[i]")),
                  ("C13+C20.the_report_does_not_write_into_the_result", "num_eligible['prog'] is not comp0.vals and all(comp0.vals[i] == SIZES[i] for i in range(n))")],
         defined_props=["C13", "C20"])
+
+
+# ---- Compartment.outflow (reported people leaving per step, C13/C20 reports): the sum of the outgoing links at every time index
+CONTRACTS["model:Compartment.outflow"] = dict(
+    schema="model_schema", params={},
+    requires=["all(not isinstance(l, TimedLink) for l in self.outlinks)", "all(len(l.vals) == len(self.t) for l in self.outlinks)"],
+    modifies=[],
+    ensures=[("C13+C20.reported_outflow_is_the_sum_of_the_outgoing_links", "len(result) == len(self.t) and all(result[i] == sum(l.vals[i] for l in self.outlinks) for i in range(len(self.t)))")],
+    frame_props=["C13", "C20"], defined_props=["C13"])
+
+
+# ---- Result.get_coverage, the annualisation loop at its end: capacity and number covered of one-off programs are reported per year
+# (divided by dt), continuous programs as they are
+def _env_annualise(quantity):
+    def make(it):
+        from pyvc.interp import PyObjV
+        from pyvc.core import LArr, Opaque
+        from pyvc import source
+
+        n = z3.Int("n_times")
+        it.facts.append(n >= 0)
+        f = z3.Function("per_step", z3.IntSort(), z3.RealSort())
+        vals = LArr(n, lambda i: f(i if z3.is_expr(i) else z3.IntVal(i)))
+        dt = z3.Real("dt")
+        it.pc.append(dt > 0)
+        model = PyObjV("Model", source.load("model"), {"dt": dt, "progset": Opaque("progset")})
+        self = PyObjV("Result", source.load("results"), {"model": model})
+        per_step = LArr(n, lambda i: f(i if z3.is_expr(i) else z3.IntVal(i)), fresh_alloc=False)
+        return {"self": self, "prog": "p", "output": {"p": vals}, "quantity": quantity, "PER_STEP": per_step, "n": n, "dt": dt}
+
+    return make
+
+
+CONTRACTS["results:Result.get_coverage#annualisation"] = dict(
+    schema=schema, fragment={"iter": "output.keys()", "body_contains": "is_one_off"}, make_env=_env_annualise("capacity"),
+    ghost_params={"ONE_OFF": "bool"}, stubs={_P + ".is_one_off": "ONE_OFF"},
+    ensures=[("C13.one_off_programs_are_reported_per_year_and_continuous_programs_as_they_are",
+              "all(output['p'][i] == (PER_STEP[i] / dt if ONE_OFF else PER_STEP[i]) for i in range(n))")],
+    defined_props=["C13"])
